@@ -136,8 +136,11 @@ def check_identity_inherited(fd: int, pid: int, mpfd: int, mppid: int, init_main
     # child side
     child, mpchild = NS(_fd=None, _pid=None), NS(_fd=None, _pid=None)
     rt._resource_tracker, mprt._resource_tracker = child, mpchild
-    sp._fixup_main_from_name = lambda n: log.add("fixup")
-    sp._fixup_main_from_path = lambda n: log.add("fixup")
+    # the parent's __main__ may be re-executed here: the inherited tracker must already be installed,
+    # otherwise a tracked operation at module level would start a second, private tracker
+    wired = lambda: child._fd == fd and child._pid == pid and mpchild._fd == mpfd and mpchild._pid == mppid
+    sp._fixup_main_from_name = lambda n: log.add("fixup", wired())
+    sp._fixup_main_from_path = lambda n: log.add("fixup", wired())
     small = {k: v for k, v in data.items() if k in ("tracker_args", "mp_tracker_args",
                                                     "init_main_from_name", "init_main_from_path")}
     try:
@@ -146,4 +149,4 @@ def check_identity_inherited(fd: int, pid: int, mpfd: int, mppid: int, init_main
         (rt._resource_tracker, mprt._resource_tracker, sp._fixup_main_from_name,
          sp._fixup_main_from_path) = saved
     return (child._fd == fd and child._pid == pid and mpchild._fd == mpfd and mpchild._pid == mppid
-            and log.count("fixup") == (1 if init_main else 0))
+            and log.count("fixup", True) == (1 if init_main else 0) and log.count("fixup", False) == 0)
